@@ -60,6 +60,10 @@ var c03Templates = []string{
 	"{{ buf }}|{{ rd }}|{{ hold.Body }}|{{ hold.R }}|{{ hold.Body | size }}|{{ buf | append: '' | size }}|{% for x in hold.L %}{{ x }}{% endfor %}|{{ buf | json }}",
 	// the same cached file included from two LINES of one template; which of them runs (and fails) depends on the bindings
 	"{% if n %}{% include \"" + c03NeedName + "\" %}{% endif %}\n\n{% include \"" + c03NeedName + "\" %}",
+	// a render that fails (or breaks off) inside a loop AFTER its cycle advanced - only for some bindings (an element equal to 3) -
+	// followed by a render of the same parsed template that runs through: the cycle starts over
+	"{% for i in a %}{% cycle 'p', 'q', 'r' %}{% cycle 'g': '1', '2' %}{% if i == 3 %}{{ i | failing }}{% endif %}{% endfor %}",
+	"{% for i in a %}{% capture c %}{% cycle 'u', 'v', 'w' %}{% if i == 1 %}{% break %}{% endif %}{% endcapture %}{{ c }}{% endfor %}|{% tablerow i in a cols: 2 %}{% cycle 'p', 'q', 'r' %}{% if i == 3 %}{{ i | failing }}{% endif %}{% endtablerow %}",
 	// thorough
 	"{{ ints | sort | join }}{{ strs | reverse | join }}{{ arr | sort | first }}{{ drop | sort | join }}{{ pst.A }}{{ st.C | sort | join }}",
 	"{{ ms | sort | join }}{{ rng | reverse | join }}{% for kv in m %}{{ kv[0] }}{% endfor %}{{ m.j | sort | join }}",
@@ -253,7 +257,7 @@ func firstDiff(a, b string) string {
 }
 
 func c03Families(tier string) []explore.Family {
-	nT, nB, depth := 29, 3, 2
+	nT, nB, depth := 31, 3, 2
 	if tier == "thorough" {
 		nT, nB, depth = len(c03Templates), 4, 3
 	}
@@ -430,7 +434,7 @@ func init() {
 	explore.Register(&explore.Prop{
 		ID:    "C03",
 		Level: "model_checking",
-		Rule: "explicit-state search over histories of renders R(t,b) on one shared world (one engine, templates parsed once, binding environments built once and shared by reference): all histories of length <=2 over 29 templates x 3 environments (quick) / <=3 over 39 x 4 (thorough), each replayed on a fresh world, plus 40-step round-robin histories from every starting operation; plus a family that keeps the []byte returned by a render of 0..2^20 bytes (13 sizes around 64, 4096, 65536) and re-reads it after later renders; " +
+		Rule: "explicit-state search over histories of renders R(t,b) on one shared world (one engine, templates parsed once, binding environments built once and shared by reference): all histories of length <=2 over 31 templates x 3 environments (quick) / <=3 over 41 x 4 (thorough), each replayed on a fresh world, plus 40-step round-robin histories from every starting operation; plus a family that keeps the []byte returned by a render of 0..2^20 bytes (13 sizes around 64, 4096, 65536) and re-reads it after later renders; " +
 			"templates cover assign of a bound name, capture, shadowing loops, cycle groups, nested loops with break, every array filter on bound arrays (incl. aliased sub-slices and spare capacity), include, a render failing half-way, tablerow, typed slices, structs, pointers, Drops, MapSlice, ranges; " +
 			"invariants after every step: deep snapshot of every environment unchanged (slices up to capacity, unexported fields, aliasing), result equals the solo result on a fresh engine/parse/bindings; structural changes of render trees / engine configuration are recorded (not alarms: the statement defines template immutability through re-render equality); state = canonical world snapshot after the history; transition = one render",
 		Assumptions: []string{
